@@ -64,6 +64,7 @@ class Drawer(AbstractMLE):
         """
 
         number_of_cores = 1
+        kwargs.pop("number_of_cores", None)
 
         super().__init__(
             name=name,
